@@ -37,3 +37,28 @@ Theorem P_load_schedules_roundtrip :
   = flat_map (fun ln => filter (fun t => Nat.eqb (trip_line d t) (l_id ln)) (d_trips d)) (d_lines d).
 Proof. exact load_schedules_roundtrip. Qed.
 Print Assumptions P_load_schedules_roundtrip.
+
+(* ---- the WHOLE loading pipeline (Loader2.v: all seven collection loaders in loadAllData's order, with their catch
+   clauses and return codes, and main's status): a well-formed dataset written in the cache schema loads back to itself —
+   stops, lines with agency and mode, paths with stop order and segment distances, every trip with its times and flags,
+   scenarios with all nine lists — with footpaths in the loader's layout (reverse lists derived), status READY; and the
+   loaded dataset has the SAME connections, sorted lists and per-scenario connection sets, so every theorem about
+   calc_single / calc_allnodes / alternatives on d applies to the loaded data ---- *)
+From TrV Require Import Loader2 Proofs.Loader2Proofs.
+Theorem P_load_all_roundtrip : forall d, wf_data_b d = true -> encodable_b d = true ->
+  load_all (encode_all d) = (mem_of d, data_status (sizes_of (mem_of d))) /\
+  data_of (fst (load_all (encode_all d))) = canon d /\
+  snd (load_steps (encode_all d)) = false /\
+  (nonempty_data_b d = true -> snd (load_all (encode_all d)) = ST_READY).
+Proof. exact load_all_roundtrip. Qed.
+Print Assumptions P_load_all_roundtrip.
+
+Theorem P_loaded_data_routes_alike : forall d,
+  d_nodes (canon d) = d_nodes d /\ d_lines (canon d) = d_lines d /\ d_paths (canon d) = d_paths d /\
+  d_trips (canon d) = d_trips d /\ d_scenarios (canon d) = d_scenarios d /\
+  all_conns (canon d) = all_conns d /\ sorted_fwd (canon d) = sorted_fwd d /\ sorted_rev (canon d) = sorted_rev d /\
+  (forall s, conn_set (canon d) s = conn_set d s) /\
+  (forall s, enabled_trips (canon d) s = enabled_trips d s) /\
+  (forall sid, find_scenario (canon d) sid = find_scenario d sid).
+Proof. exact canon_routing_data. Qed.
+Print Assumptions P_loaded_data_routes_alike.
